@@ -86,6 +86,8 @@ class Prop(PropBase):
     def _shift_arg(self, case, z):
         np, u = self.np, self.u
         arr = np.array(case["vals"], dtype=float).reshape(case["shp"]) if case["shp"] else float(case["vals"][0])
+        if case["shp"] and len(case["shp"]) >= 2 and case["seed"] % 2:
+            arr = np.asfortranarray(arr) if case["seed"] % 4 == 1 else np.ascontiguousarray(arr.T).T      # other memory layout
         if case["quantity"]:
             q = (arr / z.sample_rate).to(getattr(u, case.get("qunit", "ms")))
             seen = np.asarray((q * z.sample_rate).to_value(u.one), dtype=float)
